@@ -321,7 +321,7 @@ fn wedge_class(input: &[u8]) -> &'static str {
 }
 
 pub fn decoder(ctx: &Ctx) -> Report {
-    let n = ctx.n(400_000, 60_000_000);
+    let n = ctx.n(4_000_000, 2_000_000_000);
     par_cases(ctx, "decoder", n, ctx.secs(30, 900), |i, rng, rep| {
         let (input, label) = hostile_input(rng, 1 + rng.clone().below(1000) as i64);
         judge_decoder(&input, &label, rep, json!({"lane":"decoder","case":i,"input_hex":ber::hex(&input[..input.len().min(300)])}));
@@ -498,7 +498,7 @@ fn run_driver_case(i: u64, rng: &mut Rng, rep: &mut Report, forced: Option<Vec<u
 }
 
 pub fn driver(ctx: &Ctx) -> Report {
-    let n = ctx.n(30_000, 3_000_000);
+    let n = ctx.n(300_000, 200_000_000);
     par_cases(ctx, "driver", n, ctx.secs(40, 900), |i, rng, rep| run_driver_case(i, rng, rep, None, false))
 }
 
